@@ -26,12 +26,8 @@ fn dry_init(cfg: &DispCfg) -> Option<u64> {
     }
 }
 
-fn effects(args: &Args) -> Vec<Effect> {
-    if args.quick() {
-        vec![Effect::NoEffect, Effect::Inverted]
-    } else {
-        vec![Effect::NoEffect, Effect::TookEffect, Effect::Inverted]
-    }
+fn effects(_args: &Args) -> Vec<Effect> {
+    vec![Effect::NoEffect, Effect::TookEffect, Effect::Inverted]
 }
 
 pub fn c12(args: &Args) -> Acc {
@@ -188,6 +184,7 @@ pub fn c12(args: &Args) -> Acc {
                     a.case(&format!("{}/{:?}/{}/{:?}/{}", idx, op.name(), k, eff, cfg.tr.name()), true);
                     let Opened::Ready(mut s) = Session::open_with(&cfg, None, *eff, false) else { return };
                     let before_sleep = s.rig.is_sleeping();
+                    let madctl_before = s.panel.madctl;
                     let r = s.step_with(&op, Some(k));
                     let f = s.tl.0.borrow().faulted;
                     let Some(f) = f else {
@@ -226,7 +223,21 @@ pub fn c12(args: &Args) -> Acc {
                     }
                     // the fault has cleared: re-issue mode-changing calls, then the display must draw correctly
                     let mut recovery: Vec<Op> = Vec::new();
-                    if let Op::SetOrientation(_) | Op::Sleep | Op::Wake | Op::ScrollRegion(..) | Op::ScrollOffset(_) | Op::Tearing(_) = &op {
+                    // A failed set_orientation whose address-mode byte never reached the controller
+                    // (the simulator's address mode is unchanged) must leave a display that still
+                    // draws correctly in the *old* orientation. If the byte did arrive although the
+                    // bus reported failure, driver and controller can only be re-synchronised by
+                    // issuing the call again.
+                    let orientation_delivered = matches!(op, Op::SetOrientation(_)) && s.panel.madctl != madctl_before;
+                    let reissue = match &op {
+                        Op::SetOrientation(_) => orientation_delivered,
+                        Op::Sleep | Op::Wake | Op::ScrollRegion(..) | Op::ScrollOffset(_) | Op::Tearing(_) => true,
+                        _ => false,
+                    };
+                    if matches!(op, Op::SetOrientation(_)) {
+                        a.count(if reissue { "failed_set_orientation_reissued" } else { "failed_set_orientation_old_orientation_checked" }, 1);
+                    }
+                    if reissue {
                         recovery.push(op.clone());
                     }
                     if matches!(op, Op::Sleep) {
@@ -234,11 +245,10 @@ pub fn c12(args: &Args) -> Acc {
                     }
                     recovery.push(Op::Clear { c: 0x1234 });
                     let (lw2, lh2) = s.reffb.lsize();
-                    let (lw2, lh2) = if let Op::SetOrientation(o) = &op {
+                    let (lw2, lh2) = match &op {
                         // after the re-issue the logical size follows the new orientation
-                        if (o.rot() ^ cfg.ori.rot()) & 1 == 1 { (lh2, lw2) } else { (lw2, lh2) }
-                    } else {
-                        (lw2, lh2)
+                        Op::SetOrientation(o) if reissue && (o.rot() ^ cfg.ori.rot()) & 1 == 1 => (lh2, lw2),
+                        _ => (lw2, lh2),
                     };
                     let mut r2 = Rng::new(idx ^ (k << 20));
                     let mut t2 = TagGen::new(&mut r2);
